@@ -215,7 +215,23 @@ def r1_keys(ctx) -> None:
                     r.ok("C06.R1", wq, f"'{k}' guarded by truthiness of {unparse(t)} (type {ty}): empty/false equals the default", f"{wf.module.relpath}:{g.lineno}")
             else:
                 r.ok("C06.R1", wq, f"'{k}' guarded by {short(t, 60)}", f"{wf.module.relpath}:{g.lineno}")
-    r.floor("C06.R1", 12)
+    # dates: the writer emits date.isoformat(); every such text must be accepted by the reader's patterns
+    import re as _re
+    gd = prog.func("sigma.rule.base.SigmaRuleBase.from_dict_common_params")
+    pats = []
+    for n in ast.walk(gd.node):
+        if isinstance(n, ast.Assign) and unparse(n.targets[0]) == "accepted_regexps" and isinstance(n.value, ast.Tuple):
+            pats = [e.value for e in n.value.elts if isinstance(e, ast.Constant) and isinstance(e.value, str)]
+    wsrc = unparse(prog.func("sigma.rule.base.SigmaRuleBase.to_dict").node)
+    if not pats or "self.date.isoformat()" not in wsrc or "self.modified.isoformat()" not in wsrc:
+        raise AnalysisError("date patterns of the reader / isoformat() of the writer not found")
+    rejected = [f"{y:04d}-{m_:02d}-{d_:02d}" for y in (1000, 1999, 2024, 3999) for m_ in range(1, 13) for d_ in range(1, 32)
+                if not any(_re.fullmatch(p_, f"{y:04d}-{m_:02d}-{d_:02d}") for p_ in pats)]
+    if rejected:
+        r.violation("C06.R1", gd.qual, f"accepted_regexps reject {rejected[0]}", f"the writer emits dates as date.isoformat(); {len(rejected)} of the ISO dates with month 01..12 and day 01..31 (first: {rejected[0]}) match none of the reader's patterns {pats}: a rule with such a date cannot be loaded from its own written form", gd.loc)
+    else:
+        r.ok("C06.R1", gd.qual, f"every ISO date (4 years x 12 months x 31 days) the writer can emit matches one of the reader's {len(pats)} date patterns", gd.loc)
+    r.floor("C06.R1", 13)
 
 
 # ---------------------------------------------------------------- R2
@@ -241,7 +257,8 @@ def _protocol(ctx, f: FuncInfo) -> tuple[str, str]:
             kinds.append(("conditional", "; ".join(extra)))
     for n in resync:
         ag = atomic_guards(guards_at(prog, f, n))
-        safe = any(("SigmaValueModifier" in g and not p) or (g.endswith(".modifiers") and not p) or ("len(" in g and ".modifiers" in g and "== 0" in g and p) for g, p in ag)
+        exact = {"any((issubclass(m, SigmaValueModifier) for m in r.modifiers))", "any(issubclass(m, SigmaValueModifier) for m in r.modifiers)"}
+        safe = any((g in exact and not p) or (g.endswith(".modifiers") and " " not in g and not p) or (g.replace(" ", "") in ("len(r.modifiers)==0",) and p) for g, p in ag)
         kinds.append(("resync-guarded" if safe else "resync-unguarded", unparse(n)))
     if not kinds:
         if any(isinstance(c, ast.Call) and call_name(c) == "super().apply_detection" for c in walk_no_nested(f.node)) and f.cls is not None:
@@ -577,6 +594,12 @@ def r5_tabulated_writers(ctx) -> None:
         ("2 detections AND", [_Det([1]), _Det([2])], AND, "<raises>"),
         ("item + detection", [_It({"a": 1}), _Det([2])], AND, "<raises>"),
         ("map + keyword items", [_It({"a": 1}), _It("kw")], AND, "<raises>"),
+        ("same key twice", [_It({"a": 1}), _It({"a": 2})], AND, {"a|all": [1, 2]}),
+        ("same key, first value null", [_It({"a": None}), _It({"a": 1})], AND, {"a|all": [None, 1]}),
+        ("same key, second value null", [_It({"a": 1}), _It({"a": None})], AND, {"a|all": [1, None]}),
+        ("same all-key", [_It({"a|all": [1, 2]}), _It({"a|all": 3})], AND, {"a|all": [1, 2, 3]}),
+        ("same all-key, first value null", [_It({"a|all": None}), _It({"a|all": 3})], AND, {"a|all": [None, 3]}),
+        ("three items, two keys", [_It({"a": 1}), _It({"b": 2}), _It({"a": 3})], AND, {"b": 2, "a|all": [1, 3]}),
     ]
     wrong = []
     for name, items, linking, want in cases:
